@@ -48,6 +48,10 @@ let handle line =
     let scripts_s, sched_s = split_last rest in
     let scripts = List.map (fun s -> List.map parse_op (words s)) scripts_s in
     let sched = List.map (fun w -> nat_of_int (int_of_string w)) (words sched_s) in
+    let chk x = if x < 0 || x >= n then failwith "node out of range" in
+    List.iter (List.iter (fun o -> match o with
+      | OUnion (x, y) | OSame (x, y) -> chk (int_of_nat x); chk (int_of_nat y)
+      | OFind x -> chk (int_of_nat x))) scripts;
     let nn = nat_of_int n in
     let (st, ev) = run_events_from fx (init nn scripts) sched in
     let resps = List.filter_map (fun ((t, r), _) -> match r with Some r -> Some (show_resp (t, r)) | None -> None) ev in
